@@ -847,8 +847,8 @@ def run(ctx) -> None:
     ctx.check_proofs(['Conn/AuthCheck'])
     ctx.extra['t_proofs_s'] = round(time.time() - t0, 1)
     rng = ctx.rng
-    n_imap = ctx.scale(900, 20000)
-    n_sieve = ctx.scale(300, 5000)
+    n_imap = ctx.scale(900, 10000)
+    n_sieve = ctx.scale(300, 2500)
 
     async def main():
         envs = {}
